@@ -145,7 +145,9 @@ def sp_strategy():
                                   'sign_r': st.booleans(), 'xsw': st.tuples(st.integers(0, 6), st.integers(0, 3), st.integers(0, 3)).map(list), 'conv': st.booleans(),
                                   # None: the assertion is encrypted for a key pair of the SP's configuration; otherwise for pool key 4, whose private key the application hands
                                   # over per request (outstanding_certs) as the n-th of the listed keys
-                                  'per_request': st.sampled_from([None, None, None, [4], [4, 5], [5, 4], [5, 4, 6], [5, 6, 4]])})
+                                  'per_request': st.sampled_from([None, None, None, [4], [4, 5], [5, 4], [5, 4, 6], [5, 6, 4]]),
+                                  # what the application stored for its outstanding requests (a return URL, or nothing)
+                                  'came': st.sampled_from(['/one', '/one', '', '0'])})
 
 
 def run_sp(case):
@@ -195,7 +197,7 @@ def run_sp(case):
         r['status'] = {'code': 'urn:oasis:names:tc:SAML:2.0:status:Responder'}
     sign_r = 1 if (case['sign_r'] or wrs) else None
     kw = {'conv_info': {'entity_id': spside.SP}} if (case['conv'] or f == 'foreign-recipient') else {}
-    out = {'id-req-1': '/one', 'id-req-2': '/two'}
+    out = {'id-req-1': case.get('came', '/one'), 'id-req-2': case.get('came', '/one')}
     plain = build.render(r, [a], sign_response=sign_r, sign_assertions=sign_a, alg=case['alg'], post_assertion=post)
     pr = case.get('per_request')
     enc = build.render(r, [a], sign_response=sign_r, sign_assertions=sign_a, alg=case['alg'], post_assertion=post, encrypt_for=4 if pr else case['enc_key'], block=case['block'], transport=case['transport'])
